@@ -54,7 +54,29 @@ uninterp spec fn hip_lb(e: HipEstimator, lg: u8, cur_min: u8, n: u32, s: NumStdD
 // HipEstimator::estimate, read off its body: the HIP accumulator in order, the composite estimator out of order
 spec fn hip_est(e: HipEstimator, lg: u8, cur_min: u8, n: u32) -> f64 { if e.out_of_order { composite_est(e, lg, cur_min, n) } else { e.hip_accum } }
 
+// `k as f64` (i32 -> f64): an uninterpreted function of the integer.  KX hip_new_fields (complete, lg_config_k < 31) pins it on the real
+// constructor: kxq0 is exactly 2^lg_config_k.
+pub uninterp spec fn i32_to_f64(n: i32) -> f64;
+#[verifier::external_body] fn vx_i32_as_f64(n: i32) -> (r: f64) ensures r == i32_to_f64(n) { n as f64 }
+
 impl HipEstimator {
+    // a fresh estimator: in order, accumulator 0, kxq0 = K (all registers 0), kxq1 = 0.  `1 << lg_config_k` is an i32 shift: lg_config_k < 32
+    fn new(lg_config_k: u8) -> (r: Self)
+      requires lg_config_k < 32
+      ensures /*@C02.hip.new.in_order*/ !r.out_of_order,
+        /*@C02.hip.new.accum*/ r.hip_accum == 0.0f64,
+        /*@C02.hip.new.kxq*/ r.kxq0 == i32_to_f64(1i32 << lg_config_k) && r.kxq1 == 0.0f64,
+        /*@C02.hip.new.estimate_zero*/ forall|cm: u8, n: u32| #[trigger] hip_est(r, lg_config_k, cm, n) == 0.0f64,
+    {
+        let k = 1 << lg_config_k;
+        Self {
+            hip_accum: 0.0,
+            kxq0: vx_i32_as_f64(k), // All registers start at 0, so kxq0 = k * (1/2^0) = k
+            kxq1: 0.0,
+            out_of_order: false,
+        }
+    }
+
     fn estimate(&self, lg_config_k: u8, cur_min: u8, num_at_cur_min: u32) -> (r: f64)
       ensures /*@C01.hll.dispatch*/ r == hip_est(*self, lg_config_k, cur_min, num_at_cur_min),
         /*@C02.estimate_in_order*/ !self.out_of_order ==> r == self.hip_accum,
